@@ -374,7 +374,9 @@ fn cmd_escape(mode: &str, maxlen: usize) -> (u64, Vec<String>) {
     // plus a few valid multi-byte ones
     for s in ["é", "a\u{200b}b", "\\\u{0}", "a\\tb\u{0}", "日本\u{3000}", "\u{e000}\\x",
               // content that ends like a modifier the reader of escaped expectations treats specially
-              "a\tb (no-eol)", "\u{1b}[1mx\u{1b}[0m (no-eol)", "\u{200b} (no-eol)", "\t (no-eol) (no-eol)", "\t(no-eol)", "\t (no-eol) ", "é\t (no-eol)", "\t (escaped)", "\t (esc)"] {
+              "a\tb (no-eol)", "\u{1b}[1mx\u{1b}[0m (no-eol)", "\u{200b} (no-eol)", "\t (no-eol) (no-eol)", "\t(no-eol)", "\t (no-eol) ", "é\t (no-eol)", "\t (escaped)", "\t (esc)",
+              // printable non-ASCII text with backslashes (nothing to escape: must be written as itself), and the same with something to escape
+              "café\\", "é\\t", "C:\\Users\\André\\temp", "é\\t\u{7}", "\\x41é", "日本\\0101"] {
         strings.push(s.as_bytes().to_vec());
     }
     let mut n = 0u64;
@@ -393,6 +395,10 @@ fn cmd_escape(mode: &str, maxlen: usize) -> (u64, Vec<String>) {
             let printable = if *mname == "ascii" { text.chars().all(|c| (0x20..=0x7e).contains(&(c as u32))) } else { text.chars().all(|c| !c.is_other()) };
             if !printable {
                 bad.push(format!("{{\"why\":\"C11 printable ({mname})\",\"content\":{},\"text\":{}}}", jbytes(content), jstr(&text)));
+            }
+            // "the line itself (an equal expectation) when that is printable text"
+            if !esc.has_unprintable(content) && text != String::from_utf8_lossy(content) {
+                bad.push(format!("{{\"why\":\"C11 kind ({mname}): printable text is not written as itself\",\"content\":{},\"text\":{}}}", jbytes(content), jstr(&text)));
             }
             // read back: as `escaped` when marked, else as `equal` (the kind C11 names; kind detection by the expectation regex is C08/C09)
             let exp = if let Some(t) = text.strip_suffix(" (escaped)") {
@@ -800,7 +806,9 @@ fn cmd_c10(n: usize) -> (u64, Vec<String>) {
     let mut bad = vec![];
     // documents = up to n pieces (whole constructs), and up to min(n, 4) single lines
     let pieces = ["text\n", "\n", "# h\n", "---\n---\n", "---\nfoo: 1\n---\n", "```scrut\n$ echo a\na\n```\n", "```scrut\n# c\n$ echo a\n```\n", "```scrut\n# c\n```\n",
-        "```scrut\n```\n", "```sh\nx\n```\n", "````scrut {timeout: 3s}\n$ echo a\n```\na\n````\n", "```\n", "```scrut\n$ echo b\n> c\nb\n[1]\n```\n", "```scrut\nnot a command\n```\n", "```scrut\n\n$ echo c\nc\n```\n", "```scrut\nearlier\n$ echo d\n```\n"];
+        "```scrut\n```\n", "```sh\nx\n```\n", "````scrut {timeout: 3s}\n$ echo a\n```\na\n````\n", "```\n", "```scrut\n$ echo b\n> c\nb\n[1]\n```\n", "```scrut\nnot a command\n```\n", "```scrut\n\n$ echo c\nc\n```\n", "```scrut\nearlier\n$ echo d\n```\n",
+        // kept expectation lines that START like a fence but are not bare backticks
+        "````scrut\n$ echo a\n```scrut {timeout: 3s}\na\n````\n", "````scrut\n$ echo a\n```sh\n````\n"];
     let line_shapes: Vec<String> = shapes.iter().map(|l| format!("{l}\n")).collect();
     for (alphabet, bound) in [(pieces.iter().map(|s| s.to_string()).collect::<Vec<_>>(), n), (line_shapes, n.min(4))] {
         let mut idx: Vec<usize> = vec![];
@@ -1197,8 +1205,13 @@ fn cmd_c14() -> (u64, Vec<String>) {
         // the slow test case first, or after a quick one that uses up none of the limits
         for lead in [0usize, 1] {
             cases += 1;
-            let context = Context { work_directory: work.path().to_path_buf(), temp_directory: temp.path().to_path_buf(), file: std::path::PathBuf::from("doc.md"),
+            let mut context = Context { work_directory: work.path().to_path_buf(), temp_directory: temp.path().to_path_buf(), file: std::path::PathBuf::from("doc.md"),
                 config: DocumentConfig { total_timeout: dt, ..DocumentConfig::default() } };
+            // second pass over the table (lead == 1): the per-test-case limit is not written on the test cases but comes from the document's
+            // `defaults` in the execution context (the layer the executor itself applies): it must be in effect when the limit is computed
+            let from_defaults = lead == 1 && tt.is_some();
+            if from_defaults { context.config.defaults.timeout = tt; }
+            let tt = if from_defaults { None } else { tt };
             let mut tcs = vec![];
             for _ in 0..lead { tcs.push(TestCase { title: "t".into(), shell_expression: "true".into(), expectations: vec![], exit_code: None, line_number: 1, config: TestCaseConfig { timeout: tt, ..TestCaseConfig::empty() } }); }
             tcs.push(TestCase { title: "t".into(), shell_expression: cmd.into(), expectations: vec![], exit_code: None, line_number: 1 + lead, config: TestCaseConfig { timeout: tt, ..TestCaseConfig::empty() } });
